@@ -67,6 +67,8 @@ def obj_binary(name):
         return lambda x: onemax(x) + 1e6
     if name == "view":    # returns a VIEW of its argument (the first locus): the caller's array must not be written to
         return lambda x: x[:, 0] if isinstance(x, np.ndarray) else np.asarray(x)[:, 0]
+    if name == "zero":    # the best value is exactly 0 (an error count that reaches 0), reached early and easily lost again
+        return lambda x: -np.abs(onemax(x) - 3.0)
     if name == "fail_hi":  # failed evaluations reported as +inf (the worst value when minimising)
         return lambda x: np.where(onemax(x) >= 6, np.inf, onemax(x))
     if name == "inf":     # the best values are infinite (1/error with error 0, log(0)): +inf above, -inf below
@@ -91,6 +93,8 @@ def obj_float(name):
         return lambda x: np.sum(np.asarray(x, dtype=np.float64), axis=1) * 3.0 + 11.0
     if name == "offset":
         return lambda x: np.round(sphere(x) * 8.0) / 8.0 + 1e12
+    if name == "zero":
+        return lambda x: -np.floor(sphere(x) / 4.0)
     if name == "fail_hi":
         return lambda x: np.where(sphere(x) >= 6.0, np.inf, sphere(x))
     if name == "inf":
@@ -133,6 +137,8 @@ def obj_tree(name):
         return lambda trees: size(trees) + 1e12
     if name == "offset6":
         return lambda trees: size(trees) + 1e6
+    if name == "zero":
+        return lambda trees: -np.abs(size(trees) - 5.0)
     if name == "fail_hi":
         return lambda trees: np.where(size(trees) >= 9, np.inf, size(trees))
     if name == "inf":
@@ -441,6 +447,9 @@ def configs(tier: str, seed: int, classes=None, extra_stop=True):
         combos.append(dict(objective="ties", elitism=False, minimization=True, g2p="same", init=False))
         combos.append(dict(objective="inf", elitism=True, minimization=False, g2p=False, init=False))
         combos.append(dict(objective="inf", elitism=False, minimization=True, g2p=False, init=False))
+        # a best value of exactly 0 (falsy), with and without elitism
+        combos.append(dict(objective="zero", elitism=False, minimization=False, g2p=False, init=False))
+        combos.append(dict(objective="zero", elitism=True, minimization=False, g2p=False, init=False))
         if tier == "thorough":
             for o in objs:
                 for el in (True, False):
